@@ -220,8 +220,12 @@ func ZZH14cCompile() {
 	c := newCompiler(true, semi, 2).WithSourceMap()
 	r1 := c.Compile(prog)
 	r2 := c.Compile(prog)
-	m1, ok1 := sourcemap.ZZDecode(r1.SourceMap.Mappings, sym.Symbolic())
-	m2, ok2 := sourcemap.ZZDecode(r2.SourceMap.Mappings, sym.Symbolic())
+	raw := sym.Symbolic() && sym.Param("vlqstub", 0) == 1 // the modular encodeVLQ stand-in is in force
+	if !raw {
+		sym.Assert(sym.EqStr(r1.SourceMap.Mappings, r2.SourceMap.Mappings), "compiler-object-reusable")
+	}
+	m1, ok1 := sourcemap.ZZDecode(r1.SourceMap.Mappings, raw)
+	m2, ok2 := sourcemap.ZZDecode(r2.SourceMap.Mappings, raw)
 	same := ok1 && ok2 && len(m1) == len(m2)
 	if same {
 		for i := range m1 {
@@ -230,5 +234,42 @@ func ZZH14cCompile() {
 		}
 	}
 	sym.Assert(sym.EqStr(r1.Code, r2.Code) && same, "compiler-object-reusable")
+	// a compiler object configured twice behaves like one configured only the second way
+	rc := compiler.New().WithPrettyPrint(compiler.WithTabs(), compiler.WithSemi(false))
+	rc.WithPrettyPrint(compiler.WithSemi(semi))
+	sym.Assert(sym.EqStr(rc.Compile(prog).Code, pretty1), "reconfigured-compiler-equals-fresh-compiler")
+	rc.WithPrettyPrint(compiler.WithSpaces(4))
+	sym.Assert(sym.EqStr(rc.Compile(prog).Code, newCompiler(true, true, 4).Compile(prog).Code), "reconfigured-compiler-equals-fresh-compiler")
+	if !sym.Symbolic() {
+		// native replay only: the same compilations on 16 goroutines (the executor
+		// decides the confinement premise; this shows the consequence of a leak)
+		sym.Assert(concurrentCompilesAgree(prog, semi, pretty1, prettyMap.SourceMap.Mappings), "concurrent-compilations-equal-sequential")
+	}
 	sym.Cover("end")
+}
+
+func concurrentCompilesAgree(prog *ast.Program, semi bool, wantCode, wantMap string) bool {
+	const workers, rounds = 16, 40
+	bad := make([]bool, workers)
+	done := make(chan int, workers)
+	for w := 0; w < workers; w++ {
+		go func(w int) {
+			for i := 0; i < rounds; i++ {
+				r := newCompiler(true, semi, 2).WithSourceMap().Compile(prog)
+				if r.Code != wantCode || r.SourceMap.Mappings != wantMap {
+					bad[w] = true
+				}
+			}
+			done <- w
+		}(w)
+	}
+	for w := 0; w < workers; w++ {
+		<-done
+	}
+	for _, b := range bad {
+		if b {
+			return false
+		}
+	}
+	return true
 }
